@@ -49,8 +49,26 @@ Inductive wcall :=
 | CMetadata (m : metadata)
 | CClose.
 
+(* ---------- ghost trace: what has been emitted, structurally ---------- *)
+Inductive item :=
+| IMagic
+| IRec (op : byte) (body : bytes)                  (* a record written through writeRecord *)
+| IChunk (k : chunk)                               (* chunk record: head + payload *)
+| IAttach (a : attachment) (data : bytes) (crc : N)
+| IFooter (ss sos crc : N).
+
+Definition render_item (it : item) : bytes :=
+  match it with
+  | IMagic => magic
+  | IRec op body => frame op body
+  | IChunk k => frame OpChunk (enc_chunk k)
+  | IAttach a data crc => frame OpAttachment (enc_attachment_fields a ++ data ++ u32 crc)
+  | IFooter ss sos crc => frame OpFooter (enc_footer {| f_summary_start := ss; f_summary_offset_start := sos; f_crc := crc |})
+  end.
+
 (* ---------- state ---------- *)
 Record wstate := {
+  w_trace : list item;        (* ghost: items completely written, newest first *)
   w_out : list bytes;         (* bytes accepted by the destination per Write call, newest first *)
   w_nw : nat;                 (* number of Write calls made on the destination so far *)
   w_failed : bool;            (* a permanent fault has triggered *)
@@ -72,7 +90,7 @@ Record wstate := {
   w_closed : bool
 }.
 #[export] Instance eta_wstate : Settable _ := settable! Build_wstate
-  < w_out; w_nw; w_failed; w_size; w_crc; w_cbuf; w_nchunks; w_cur_start; w_cur_end; w_cur_count;
+  < w_trace; w_out; w_nw; w_failed; w_size; w_crc; w_cbuf; w_nchunks; w_cur_start; w_cur_end; w_cur_count;
     w_msgidx; w_channel_ids; w_schema_ids; w_channels; w_schemas; w_chunk_indexes;
     w_att_indexes; w_md_indexes; w_st_messages; w_st_schemas; w_st_channels; w_st_attachments;
     w_st_metadata; w_st_chunks; w_st_start; w_st_end; w_st_counts; w_closed >.
@@ -115,9 +133,12 @@ Definition dst_write (p : bytes) (s : wstate) : wres :=
 (* write into the chunk compressor (bytes.Buffer / codec: never fails) *)
 Definition chunk_write (p : bytes) (s : wstate) : wres := (s <| w_cbuf := w_cbuf s ++ p |>, None).
 
+Definition log (it : item) (s : wstate) : wres := (s <| w_trace := it :: w_trace s |>, None).
+
 (* writeRecord: two writes, 9-byte head then body *)
 Definition write_record_dst (op : byte) (body : bytes) (s : wstate) : wres :=
-  do* s := dst_write (frame_head op (blen body)) s in dst_write body s.
+  do* s := dst_write (frame_head op (blen body)) s in
+  do* s := dst_write body s in log (IRec op body) s.
 Definition write_record_chunk (op : byte) (body : bytes) (s : wstate) : wres :=
   do* s := chunk_write (frame_head op (blen body)) s in chunk_write body s.
 Definition in_chunk (s : wstate) : bool := o_chunked o && negb (w_closed s).
@@ -204,6 +225,7 @@ Definition write_chunk_with_indexes (k : chunk) (mis : list msgindex) (s : wstat
   let head := frame_head OpChunk (blen (enc_chunk_top k) + blen (k_records k)) ++ enc_chunk_top k in
   do* s := dst_write head s in
   do* s := dst_write (k_records k) s in
+  do* s := log (IChunk k) s in
   let chunk_end := w_size s in
   let '(s, e, offs) := if negb (o_skip_mi o) then write_msgindexes mis [] s else (s, None, []) in
   match e with
@@ -287,6 +309,7 @@ Definition write_attachment (a : attachment) (src : asrc) (s : wstate) : wres :=
     if negb (n =? a_size a) then (s, Some EAttachmentSize) else
     let crc := crc32 (fields ++ concat (as_frags src)) in
     do* s := dst_write (u32 crc) s in
+    do* s := log (IAttach a (concat (as_frags src)) crc) s in
     let ai := {| ai_offset := off; ai_length := (9 + blen fields + a_size a + 4) mod two64;
                  ai_log := a_log a; ai_create := a_create a; ai_size := a_size a;
                  ai_name := a_name a; ai_media := a_media a |} in
@@ -384,7 +407,8 @@ Definition write_summary (s : wstate) : wstate * option err * list sumoffset :=
 Definition write_footer (ss sos : N) (s : wstate) : wres :=
   let head := frame_head OpFooter 20 ++ u64 ss ++ u64 sos in
   do* s := dst_write head s in
-  dst_write (u32 (checksum s)) s.
+  let crc := checksum s in
+  do* s := dst_write (u32 crc) s in log (IFooter ss sos crc) s.
 
 (* ----- Close ----- *)
 Definition close (s : wstate) : wres :=
@@ -404,12 +428,12 @@ Definition close (s : wstate) : wres :=
               then write_all (fun so => write_record_dst OpSummaryOffset (enc_sumoffset so)) offs s
               else (s, None)) in
     do* s := write_footer ss sos s in
-    dst_write magic s
+    do* s := dst_write magic s in log IMagic s
   end.
 
 (* ----- NewWriter ----- *)
 Definition init_state : wstate :=
-  {| w_out := []; w_nw := 0; w_failed := false; w_size := 0; w_crc := crc_init; w_cbuf := [];
+  {| w_trace := []; w_out := []; w_nw := 0; w_failed := false; w_size := 0; w_crc := crc_init; w_cbuf := [];
      w_nchunks := 0; w_cur_start := max_u64; w_cur_end := 0; w_cur_count := 0; w_msgidx := [];
      w_channel_ids := []; w_schema_ids := []; w_channels := []; w_schemas := [];
      w_chunk_indexes := []; w_att_indexes := []; w_md_indexes := [];
@@ -418,7 +442,8 @@ Definition init_state : wstate :=
      w_closed := false |}.
 
 Definition new_writer : wres :=
-  do* s := (if o_skip_magic o then (init_state, None) else dst_write magic init_state) in
+  do* s := (if o_skip_magic o then (init_state, None)
+            else do* s := dst_write magic init_state in log IMagic s) in
   if o_chunked o then
     if o_custom o then
       (if bytes_eqb (o_comp o) [] then (s, Some EOther) else (s, None))
